@@ -1019,8 +1019,19 @@ func (interp *Interpreter) cfg(root *node, sc *scope, importPath, pkgName string
 
 		case defineXStmt:
 			wireChild(n)
-			if sc.def == nil {
-				// In global scope, type definition already handled by GTA.
+			if sc.def == nil && definedByGTA(sc, n) {
+				// In global scope, type definition already handled by GTA. The source
+				// expression, compiled since then, must give two values again.
+				switch lc := n.lastChild(); {
+				case lc.kind == indexExpr:
+					lc.gen = getIndexMap2
+				case lc.kind == unaryExpr && lc.action == aRecv:
+					lc.gen = recv2
+				case lc.kind == typeAssertExpr && n.child[0].ident == "_":
+					lc.gen = typeAssertStatus
+				case lc.kind == typeAssertExpr:
+					lc.gen = typeAssertLong
+				}
 				break
 			}
 			err = compDefineX(sc, n)
@@ -2672,7 +2683,11 @@ func compDefineX(sc *scope, n *node) error {
 		}
 
 	case indexExpr:
-		types = append(types, src.typ, sc.getType("bool"))
+		typ, err := typeOf(sc, src)
+		if err != nil {
+			return err
+		}
+		types = append(types, typ, sc.getType("bool"))
 		n.child[l].gen = getIndexMap2
 		n.gen = nop
 
@@ -2682,12 +2697,20 @@ func compDefineX(sc *scope, n *node) error {
 		} else {
 			n.child[l].gen = typeAssertLong
 		}
-		types = append(types, n.child[l].child[1].typ, sc.getType("bool"))
+		typ, err := typeOf(sc, n.child[l].child[1])
+		if err != nil {
+			return err
+		}
+		types = append(types, typ, sc.getType("bool"))
 		n.gen = nop
 
 	case unaryExpr:
 		if n.child[l].action == aRecv {
-			types = append(types, src.typ, sc.getType("bool"))
+			typ, err := typeOf(sc, src)
+			if err != nil {
+				return err
+			}
+			types = append(types, typ, sc.getType("bool"))
 			n.child[l].gen = recv2
 			n.gen = nop
 		}
@@ -3670,6 +3693,36 @@ func defineLabels(sc *scope, stmts []*node) {
 		sc.sym[label] = sym
 		c.sym = sym
 	}
+}
+
+// typeOf returns the type of node n, computed now if n has not been compiled
+// yet, as when a package-level definition is analysed before the compilation.
+func typeOf(sc *scope, n *node) (*itype, error) {
+	if n.typ != nil {
+		return n.typ, nil
+	}
+	typ, err := nodeType(n.interp, sc, n)
+	if err == nil && (typ == nil || !typ.isComplete()) {
+		err = n.cfgErrorf("undefined type")
+	}
+	return typ, err
+}
+
+// definedByGTA returns true if the variables of the define statement n have
+// been defined by the global types analysis: n is at package level, or at the
+// first level of an evaluated statement list, and not in a nested block.
+func definedByGTA(sc *scope, n *node) bool {
+	blank := true
+	for _, c := range n.child[:n.nleft] {
+		if c.ident == "_" {
+			continue
+		}
+		blank = false
+		if sym, _, ok := sc.lookup(c.ident); ok && sym.global && sym.node == n {
+			return true
+		}
+	}
+	return blank && sc.anc == n.interp.universe
 }
 
 // isInside returns true if n is a descendant of node anc.
